@@ -80,6 +80,24 @@ func valSX(v *variants.Variant) sx.SX {
 	return sx.L(sx.I(-2), sx.L())
 }
 
+// valSXin encodes an INPUT value: as valSX, but a date-time outside UTC keeps its zone offset as a third element
+// (the model works on instants and ignores it).
+func valSXin(v *variants.Variant) sx.SX {
+	if v != nil && v.Type() == variants.DateTime {
+		if _, off := v.AsDateTime().Zone(); off != 0 {
+			return sx.L(sx.I(7), unixNs(v.AsDateTime()), sx.N(off))
+		}
+	}
+	if v != nil && v.Type() == variants.Array {
+		var l sx.List
+		for _, e := range v.AsArray() {
+			l = append(l, valSXin(e))
+		}
+		return sx.L(sx.I(10), l)
+	}
+	return valSX(v)
+}
+
 // valFromSX rebuilds a variant from its encoding.
 func valFromSX(x sx.SX) *variants.Variant {
 	l := sx.AsList(x)
@@ -100,7 +118,11 @@ func valFromSX(x sx.SX) *variants.Variant {
 	case 7:
 		ns := p.(sx.Int).V
 		sec, nsec := new(big.Int).DivMod(ns, big.NewInt(1000000000), new(big.Int))
-		return variants.VariantFromDateTime(time.Unix(sec.Int64(), nsec.Int64()).UTC())
+		t := time.Unix(sec.Int64(), nsec.Int64()).UTC()
+		if len(l) > 2 { // the same instant carried in another time zone (offset in seconds)
+			t = t.In(time.FixedZone("z", int(sx.AsInt(l[2]))))
+		}
+		return variants.VariantFromDateTime(t)
 	case 8:
 		return variants.VariantFromTimeSpan(time.Duration(sx.AsInt(p)))
 	case 9:
@@ -127,6 +149,10 @@ func valuePool() []*variants.Variant {
 		variants.VariantFromString(""), variants.VariantFromString("abc"), variants.VariantFromString("abd"), variants.VariantFromString("7"), variants.VariantFromString("-3"), variants.VariantFromString("2.5"), variants.VariantFromString("true"), variants.VariantFromString("9007199254740993"), variants.VariantFromString("日本"), variants.VariantFromString("1e3"), variants.VariantFromString("2021-03-04T05:06:07Z"),
 		variants.VariantFromBoolean(true), variants.VariantFromBoolean(false),
 		variants.VariantFromDateTime(time.Unix(0, 0).UTC()), variants.VariantFromDateTime(time.Unix(1614834367, 0).UTC()), variants.VariantFromDateTime(time.Unix(-86400, 500).UTC()),
+		variants.VariantFromDateTime(time.Unix(1614834367, 0).In(time.FixedZone("z", 19800))), variants.VariantFromLong(1614834367),
+		// witnesses of double rounding (int64 -> float64 -> float32 differs from int64 -> float32) and of float32 / float64 ties
+		variants.VariantFromLong(1<<60 + 1<<36 + 1), mk(1<<60 + 1<<36 + 1), variants.VariantFromLong(-(1<<60 + 1<<36 + 1)), variants.VariantFromLong(1<<24 + 1), variants.VariantFromLong(1<<53 + 1),
+		variants.VariantFromDouble(16777217), variants.VariantFromDouble(0.1), variants.VariantFromFloat(0.1),
 		variants.VariantFromTimeSpan(0), variants.VariantFromTimeSpan(1500 * time.Millisecond), variants.VariantFromTimeSpan(-2 * time.Second), variants.VariantFromTimeSpan(time.Duration(math.MaxInt64)),
 		variants.VariantFromObject(objPool[0]), variants.VariantFromObject(objPool[1]),
 		arr, variants.VariantFromArray([]*variants.Variant{}), variants.VariantFromArray([]*variants.Variant{variants.VariantFromDouble(2.5), mk(2)}),
